@@ -4,7 +4,9 @@
      reset   - the stub's table for this call and the order in which the driver releases the checks
      call    - the request put in the context (verb, resource, namespace, name) and the tier
      ask     - one Authorize call of the real code, logged when the driver releases it: which check the
-               stub took it for, the question asked (verb, resource, namespace, name), the scripted answer
+               stub took it for, the question asked (verb, resource, namespace, name), the answer the stub
+               really gave; cancelled = the question's context had been cancelled by the implementation
+               when the stub came to answer it (the stub then answers "no opinion" + the context's error)
      result  - what AuthorizeTierOperation returned (allowed = nil error)
      race    - the race detector reported a data race during this call: never accepted.
                Strict = TRUE : no action consumes it (the trace is rejected at that line).
@@ -32,7 +34,8 @@ TReset == /\ IsEvent("reset")
 TCall  == /\ IsEvent("call") /\ phase = "idle"
           /\ P!Start(table, ReqOf(Cur))
 TAsk   == /\ IsEvent("ask")
-          /\ P!Ask(Cur.check, QOf(Cur), Cur.d, Cur.e)
+          /\ IF Cur.cancelled THEN P!AskCancelled(Cur.check, QOf(Cur))
+                              ELSE P!Ask(Cur.check, QOf(Cur), Cur.d, Cur.e)
 TResult == /\ IsEvent("result")
            /\ P!Result(Cur.allowed)
 
